@@ -1,7 +1,7 @@
 #!/bin/sh
 # run all verified seeds against their target property's quick check (sequentially; modifies /repo temporarily)
 cd /verif
-for spec in "C12 A C12" "C12 B C12" "C02 A C02" "C02 B C02 C14 C17" "C06 A C06 C14 C17" "C06 B C06 C12" "C14 A C14 C17" "C14 B C14 C06" "C08 A C08" "C08 B C08" "C03 A C03" "C03 B C03 C06" "C10 A C10" "C10 B C10" "C04 A C04" "C04 B C04" "C17 A C17" "C17 B C17 C10" "C18 A C18" "C18 B C18" "C20 A C20 C02" "C20 B C20 C15" "C01 A C01 C02 C17" "C01 B C01 C06 C03" "C16 A C16 C10" "C16 B C16 C02" "C09 A C09" "C09 B C09 C08" "C13 A C13" "C13 B C13" "C15 A C15" "C15 B C15" "C11 A C11" "C11 B C11" "C07 A C07" "C07 B C07"; do
+for spec in "C06 A C06 C14 C17" "C06 B C06 C12" "C14 A C14 C17" "C14 B C14 C06" "C08 A C08" "C08 B C08" "C03 A C03" "C03 B C03 C06" "C10 A C10" "C10 B C10" "C04 A C04" "C04 B C04" "C17 A C17" "C17 B C17 C10" "C18 A C18" "C18 B C18" "C20 A C20 C02" "C20 B C20 C15" "C01 A C01 C02 C17" "C01 B C01 C06 C03" "C16 A C16 C10" "C16 B C16 C02" "C09 A C09" "C09 B C09 C08" "C13 A C13" "C13 B C13" "C15 A C15" "C15 B C15" "C11 A C11" "C11 B C11" "C07 A C07" "C07 B C07"; do
   set -- $spec
   id=$1; var=$2; shift 2
   [ -f /tmp/mut/$id.out/$var/patch.diff ] || continue
